@@ -4,21 +4,24 @@ package main
 
 import (
 	"context"
-	"flag"
 	"database/sql"
 	"encoding/json"
 	"errors"
+	"flag"
 	"fmt"
 	"math/big"
 	"os"
 	"path/filepath"
 	"sort"
 	"strings"
+	"time"
 
 	"github.com/agglayer/aggkit/bridgesync"
+	"github.com/agglayer/aggkit/reorgdetector"
 	aggsync "github.com/agglayer/aggkit/sync"
 	"github.com/agglayer/aggkit/tree"
 	treetypes "github.com/agglayer/aggkit/tree/types"
+	aggkittypes "github.com/agglayer/aggkit/types"
 	"github.com/ethereum/go-ethereum/common"
 
 	"verifharness/hlib"
@@ -47,11 +50,16 @@ type Fault struct {
 }
 
 type Op struct {
-	K      string `json:"k"` // block | reorg | restart | snap
+	K      string `json:"k"` // block | reorg | restart | snap | drive
 	Num    uint64 `json:"num,omitempty"`
 	Events []Ev   `json:"events,omitempty"`
 	Fault  *Fault `json:"fault,omitempty"`
 	B      uint64 `json:"b,omitempty"`
+	Busy   bool   `json:"busy,omitempty"` // reorg while another query holds a connection of the store's pool
+	// drive: the blocks are handed, all already buffered, to the REAL sync.EVMDriver around the real processor;
+	// FaultAt >= 0: a TRANSIENT storage fault (removed after a while) hits block Blocks[FaultAt] with Fault
+	Blocks  []Op `json:"blocks,omitempty"`
+	FaultAt int  `json:"fault_at,omitempty"`
 }
 
 type In struct {
@@ -189,6 +197,12 @@ func installFault(db *sql.DB, f *Fault) {
 		}
 	}
 }
+func removeFaultQuiet(db *sql.DB) {
+	for _, s := range []string{`DROP TRIGGER IF EXISTS verif_fault`, `DROP TABLE IF EXISTS verif_cnt`} {
+		db.Exec(s) //nolint:errcheck
+	}
+}
+
 func removeFault(db *sql.DB) {
 	for _, s := range []string{`DROP TRIGGER IF EXISTS verif_fault`, `DROP TABLE IF EXISTS verif_cnt`} {
 		if _, err := db.Exec(s); err != nil {
@@ -198,12 +212,13 @@ func removeFault(db *sql.DB) {
 }
 
 type runner struct {
-	ctx    context.Context
-	path   string
-	s      *bridgesync.BridgeSync
-	leaves map[uint32]string // dc -> leaf hash of the LAST processed bridge with that dc
-	maxDC  int64
-	proofs string
+	ctx       context.Context
+	path      string
+	s         *bridgesync.BridgeSync
+	allLeaves []string
+	leaves    map[uint32]string // dc -> leaf hash of the LAST processed bridge with that dc
+	maxDC     int64
+	proofs    string
 }
 
 func (r *runner) open() {
@@ -305,6 +320,124 @@ func sortRows(rs []RowObs) {
 	})
 }
 
+// ---- real EVMDriver fed from a pre-filled buffer ----
+type bufDownloader struct{ blocks []aggsync.EVMBlock }
+
+func (d *bufDownloader) Download(ctx context.Context, fromBlock uint64, ch chan aggsync.EVMBlock) {
+	for _, b := range d.blocks {
+		if b.Num >= fromBlock {
+			select {
+			case ch <- b:
+			case <-ctx.Done():
+				close(ch)
+				return
+			}
+		}
+	}
+	<-ctx.Done()
+	close(ch)
+}
+func (d *bufDownloader) RuntimeData(ctx context.Context) (aggsync.RuntimeData, error) {
+	return aggsync.RuntimeData{}, nil
+}
+
+type nopRD struct{ sub *reorgdetector.Subscription }
+
+func (r *nopRD) Subscribe(id string) (*reorgdetector.Subscription, error) { return r.sub, nil }
+func (r *nopRD) AddBlockToTrack(ctx context.Context, id string, n uint64, h common.Hash) error {
+	return nil
+}
+func (r *nopRD) GetFinalizedBlockType() aggkittypes.BlockNumberFinality {
+	return aggkittypes.FinalizedBlock
+}
+func (r *nopRD) String() string { return "nopRD" }
+
+func (r *runner) drive(op Op) string {
+	dl := &bufDownloader{}
+	var lastNum uint64
+	for i, b := range op.Blocks {
+		eb := aggsync.EVMBlock{EVMBlockHeader: aggsync.EVMBlockHeader{Num: b.Num, Hash: common.BigToHash(new(big.Int).SetUint64(b.Num + 1000))}, IsFinalizedBlock: true}
+		for _, e := range b.Events {
+			ev := toEvent(b.Num, e)
+			if ev.Bridge != nil {
+				r.leaves[e.DC] = hlib.Hex(ev.Bridge.Hash().Bytes())
+				r.allLeaves = append(r.allLeaves, r.leaves[e.DC])
+			}
+			eb.Events = append(eb.Events, ev)
+		}
+		dl.blocks = append(dl.blocks, eb)
+		lastNum = b.Num
+		_ = i
+	}
+	rd := &nopRD{sub: &reorgdetector.Subscription{ReorgedBlock: make(chan uint64), ReorgProcessed: make(chan bool)}}
+	rh := &aggsync.RetryHandler{RetryAfterErrorPeriod: 60 * time.Millisecond, MaxRetryAttemptsAfterError: -1}
+	drv, err := bridgesync.VerifNewDriver(r.s, rd, dl, len(dl.blocks)+1, rh)
+	if err != nil {
+		return "error:" + err.Error()
+	}
+	db := bridgesync.VerifDB(r.s)
+	if op.FaultAt >= 0 && op.FaultAt < len(op.Blocks) && op.Blocks[op.FaultAt].Fault != nil {
+		installFaultForBlock(db, op.Blocks[op.FaultAt].Fault, op.Blocks[op.FaultAt].Num)
+		t := time.AfterFunc(25*time.Millisecond, func() { removeFaultQuiet(db) }) // transient fault
+		defer t.Stop()
+	}
+	ctx, cancel := context.WithCancel(r.ctx)
+	done := make(chan struct{})
+	go func() { drv.Sync(ctx); close(done) }()
+	// wait until the last block is recorded or nothing moves any more
+	deadline := time.Now().Add(3 * time.Second)
+	var last uint64
+	stable := 0
+	for time.Now().Before(deadline) {
+		time.Sleep(20 * time.Millisecond)
+		var n uint64
+		db.QueryRow("SELECT COALESCE(MAX(num),0) FROM block").Scan(&n)
+		if n == lastNum {
+			break
+		}
+		if n == last {
+			stable++
+			if stable > 15 { // 300 ms without progress: the driver has stopped
+				break
+			}
+		} else {
+			stable, last = 0, n
+		}
+	}
+	cancel()
+	<-done
+	removeFaultQuiet(db)
+	return "ok"
+}
+
+// fault restricted to rows of one block (all faultable tables carry block_num, `block` itself has num)
+func installFaultForBlock(db *sql.DB, f *Fault, blockNum uint64) {
+	tbl, ok := faultTables[f.Table]
+	if !ok {
+		panic("bad fault table " + f.Table)
+	}
+	col := "block_num"
+	if f.Table == "block" {
+		col = "num"
+	}
+	cond := fmt.Sprintf("NEW.%s = %d", col, blockNum)
+	if f.Table == "rht" { // rht rows carry no block number: fail the (32*k+5)-th insert counted from now
+		cond = fmt.Sprintf("(SELECT n FROM verif_cnt) = %d", 32*f.K+5)
+	}
+	stmts := []string{
+		`DROP TRIGGER IF EXISTS verif_fault`, `DROP TABLE IF EXISTS verif_cnt`,
+		`CREATE TABLE verif_cnt (n INTEGER)`, `INSERT INTO verif_cnt VALUES (0)`,
+		fmt.Sprintf(`CREATE TRIGGER verif_fault BEFORE INSERT ON %s BEGIN
+			SELECT RAISE(ABORT, 'verif fault') WHERE %s;
+			UPDATE verif_cnt SET n = n + 1; END`, tbl, cond),
+	}
+	for _, s := range stmts {
+		if _, err := db.Exec(s); err != nil {
+			panic(fmt.Sprintf("installFaultForBlock %q: %v", s, err))
+		}
+	}
+}
+
 func runOps(dir string, name string, ops []Op, proofs string, maxDC int64) (res []string, snaps []Snap, leaves []string) {
 	r := &runner{ctx: context.Background(), path: filepath.Join(dir, name+".sqlite"), leaves: map[uint32]string{}, maxDC: maxDC, proofs: proofs}
 	r.open()
@@ -318,7 +451,7 @@ func runOps(dir string, name string, ops []Op, proofs string, maxDC int64) (res 
 				ev := toEvent(op.Num, e)
 				if ev.Bridge != nil {
 					pending[e.DC] = hlib.Hex(ev.Bridge.Hash().Bytes())
-					leaves = append(leaves, pending[e.DC])
+					r.allLeaves = append(r.allLeaves, pending[e.DC])
 				}
 				blk.Events = append(blk.Events, ev)
 			}
@@ -336,7 +469,17 @@ func runOps(dir string, name string, ops []Op, proofs string, maxDC int64) (res 
 			}
 			res = append(res, errClass(err))
 		case "reorg":
+			var rows *sql.Rows
+			if op.Busy { // keep one pooled connection busy with an open cursor, so that the reorg runs on another one
+				rows, _ = bridgesync.VerifDB(r.s).Query("SELECT num FROM block UNION ALL SELECT 0")
+				if rows != nil {
+					rows.Next()
+				}
+			}
 			res = append(res, errClass(bridgesync.VerifReorg(r.ctx, r.s, op.B)))
+			if rows != nil {
+				rows.Close()
+			}
 		case "restart":
 			bridgesync.VerifClose(r.s)
 			r.open()
@@ -344,6 +487,8 @@ func runOps(dir string, name string, ops []Op, proofs string, maxDC int64) (res 
 		case "snap":
 			snaps = append(snaps, r.snap())
 			res = append(res, "ok")
+		case "drive":
+			res = append(res, r.drive(op))
 		case "reset": // twin only: start again from an empty database
 			bridgesync.VerifClose(r.s)
 			for _, sfx := range []string{"", "-wal", "-shm"} {
@@ -356,6 +501,7 @@ func runOps(dir string, name string, ops []Op, proofs string, maxDC int64) (res 
 			panic("bad op " + op.K)
 		}
 	}
+	leaves = r.allLeaves
 	return
 }
 
@@ -373,7 +519,11 @@ func run(in In, dir string, n int) (out Out) {
 	maxDC := int64(-1)
 	for _, ops := range [][]Op{in.Ops, in.TwinOps} {
 		for _, op := range ops {
-			for _, e := range op.Events {
+			evs := append([]Ev{}, op.Events...)
+			for _, b := range op.Blocks {
+				evs = append(evs, b.Events...)
+			}
+			for _, e := range evs {
 				if e.T == "bridge" && int64(e.DC) > maxDC {
 					maxDC = int64(e.DC)
 				}
